@@ -56,6 +56,20 @@ fn c02_codec_replay() {
             break;
         }
     }
+    // long runs of one-bits (the unary prefix of a natural number) before a short tail
+    for k in 1usize..=40 {
+        for tail in 0u32..(1 << 16) {
+            let mut v = vec![0xffu8; k];
+            v.push((tail >> 8) as u8);
+            if tail & 0xff != 0 {
+                v.push(tail as u8);
+            }
+            try_one(&v, &mut fails);
+        }
+        if fails.len() >= 10 {
+            break;
+        }
+    }
     let _ = std::panic::take_hook();
     for f in &fails {
         println!("CEX: {}", f);
